@@ -781,13 +781,34 @@ func (ig Integration) Filter() glf.Filter {
 	for i := range ig.Block {
 		fields = append(fields, ig.Block[i].Name)
 
-		if ig.Block[i].Name == "log_addr" && ig.Block[i].Filter.selectsArgs() {
+		if ig.Block[i].Name == "log_addr" && ig.Block[i].Filter.selectsArgs() && ig.addrFilterDecides() {
 			for _, arg := range ig.Block[i].Filter.Arg {
 				addrs = append(addrs, eth.EncodeHex(eth.DecodeHex(arg)))
 			}
 		}
 	}
 	return *glf.New(fields, addrs, [][]string{{eth.EncodeHex(ig.sighash)}})
+}
+
+// Reports whether a log rejected by the log_addr filter is rejected
+// by the integration. With the "or" aggregation any other filter
+// may still accept it, so the source has to be asked for all logs.
+func (ig Integration) addrFilterDecides() bool {
+	if ig.filterAGG == "and" {
+		return true
+	}
+	var n int
+	for _, inp := range ig.Event.Selected() {
+		if len(inp.Filter.Arg) > 0 || len(inp.Filter.Ref.Integration) > 0 {
+			n++
+		}
+	}
+	for _, bd := range ig.Block {
+		if len(bd.Filter.Arg) > 0 || len(bd.Filter.Ref.Integration) > 0 {
+			n++
+		}
+	}
+	return n <= 1
 }
 
 func (ig Integration) Delete(ctx context.Context, pg wpg.Conn, n uint64) error {
